@@ -37,8 +37,54 @@ def _flags(rng, physical_required=False, para=None):
             "eps_proj_physical": rng.choice([None, 1e-9, 1e-5]), "eps_truncate_imaginary_part": rng.choice([None, None, 1e-9])}
 
 
+BIG_SYSTEMS = {
+    "qutrit": {"mode": "qutrit", "num": 1, "ids": [0], "dim": 3, "state": ["01z0", "01x0", "12y1", "0_1_2_superposition"], "povm": ["01x3", "z3", "z2", "12y3"], "gate": ["01x90", "12z90", "02y90", "identity"]},
+    "2qubit": {"mode": "qubit", "num": 2, "ids": [0, 1], "dim": 4, "state": ["z0_z0", "bell_phi_plus", "x0_y1", "bell_psi_minus"], "povm": ["x_x", "bell", "z_x", "y_z"], "gate": ["cx", "cz", "swap", "zx90"]},
+}
+
+
+def gen_big_pool(rng, which):
+    """pool whose main system is a qutrit or two qubits: catalogue objects, perturbed non-physical variants, no tomography."""
+    spec = BIG_SYSTEMS[which]
+    c = W.build_csys(spec)
+    pool = [{"kind": "csys", "mode": spec["mode"], "num": spec["num"], "ids": spec["ids"], "dim": spec["dim"]}, {"kind": "csys", "mode": "qubit", "num": 1, "ids": [7], "dim": 2}]
+    c1 = W.build_csys(pool[1])
+
+    def typical(kind, name, csys, cs):
+        kw = {"ids": spec["ids"]} if (kind == "gate" and which == "2qubit" and name in ("cx", "zx90")) else {}
+        q = generate_qoperation(kind, name, cs, **kw)
+        r = W.qop_recipe(q, csys, DEFAULT_ATOL)
+        r["flags"] = _flags(rng, physical_required=rng.random() < 0.5)
+        r["name"] = name
+        return r
+
+    for kind in ("state", "povm", "gate"):
+        for n in rng.sample(spec[kind], 2):
+            pool.append(typical(kind, n, 0, c))
+        # a perturbed, non-physical variant of the first one
+        base = copy.deepcopy(pool[-2])
+        key = {"state": "vec", "povm": "vecs", "gate": "hs"}[kind]
+        if kind == "povm":
+            base[key] = [np.array(v) + rng.choice([0.02, 0.2]) * np.array([rng.gauss(0, 1) for _ in range(len(v))]) for v in base[key]]
+        else:
+            arr = np.array(base[key])
+            base[key] = arr + rng.choice([0.02, 0.2]) * np.array([rng.gauss(0, 1) for _ in range(arr.size)]).reshape(arr.shape)
+        base["flags"] = _flags(rng, physical_required=False)
+        base.pop("name", None)
+        pool.append(base)
+    pool.append(typical("state", rng.choice(["z0", "a"]), 1, c1))
+    pool.append(typical("povm", rng.choice(["x", "z"]), 1, c1))
+    pool.append(typical("gate", rng.choice(["x90", "hadamard"]), 1, c1))
+    return pool, []
+
+
 def gen_pool(rng, tier, opts):
     """list of recipes; index = pool id.  Typical objects are stored by their literal arrays (taken from quara's catalogue)."""
+    big = rng.random() < (0.3 if tier == "thorough" else 0.15)
+    if opts.get("big"):
+        big = True
+    if big and not opts.get("fault_free_small"):
+        return gen_big_pool(rng, rng.choice(["qutrit", "2qubit"]))
     c = W.build_csys({"mode": "qubit", "num": 1, "ids": [0]})
     pool = [{"kind": "csys", "mode": "qubit", "num": 1, "ids": [0]}, {"kind": "csys", "mode": "qubit", "num": 1, "ids": [1]}]
 
@@ -661,15 +707,16 @@ class Generator:
 
     def var_len(self, rec, para):
         k = rec["kind"]
+        d2 = int(self.pool[rec["csys"]].get("dim", 2)) ** 2
         if k == "state":
-            return 3 if para else 4
+            return d2 - 1 if para else d2
         if k == "povm":
             n = len(rec["vecs"])
-            return 4 * (n - 1) if para else 4 * n
+            return d2 * (n - 1) if para else d2 * n
         if k == "gate":
-            return 12 if para else 16
+            return d2 * d2 - d2 if para else d2 * d2
         n = len(rec["hss"])
-        return 16 * n - 4 if para else 16 * n
+        return d2 * d2 * n - d2 if para else d2 * d2 * n
 
     def next(self):
         rng = self.rng
@@ -738,7 +785,9 @@ class Generator:
         else:
             kind = rng.choice(["gate", "gate", "state", "povm", "mprocess"])
             name = rng.choice(ops.MODFUNCS[kind])
-        cands = self.ids(kind)
+        cands = [i for i in self.ids(kind) if int(self.pool[self.pool[i]["csys"]].get("dim", 2)) == 2]
+        if not cands:
+            return None
         src = self.pool[rng.choice(cands)]
         c = src["csys"]
         st = {"op": "modfunc", "module": kind, "name": name, "csys": c}
@@ -806,7 +855,8 @@ class Generator:
             return {"op": "cache", "csys": c, "action": "delete", "table": rng.choice(ops.CACHE_TABLES)}
         if r < 0.9:
             return {"op": "cache", "csys": c, "action": "warm", "table": rng.choice(ops.CACHE_TABLES)}
-        return {"op": "warm_bb", "csys": c, "index": [rng.randrange(4), rng.randrange(4)]}
+        n = int(self.pool[c].get("dim", 2)) ** 2
+        return {"op": "warm_bb", "csys": c, "index": [rng.randrange(n), rng.randrange(n)]}
 
     def g_flip(self):
         rng = self.rng
@@ -953,7 +1003,7 @@ class Generator:
 
     def g_basis_write(self):
         rng = self.rng
-        return {"op": "basis_write", "csys": rng.choice([0, 0, 1]), "which": rng.choice(["basis", "basis_list", "esys", "comp"]), "i": rng.randrange(4)}
+        return {"op": "basis_write", "csys": rng.choice([0, 0, 1]), "which": rng.choice(["basis", "basis_list", "esys", "comp"]), "i": rng.randrange(16)}
 
     def g_copy_edit(self):
         rng = self.rng
